@@ -295,7 +295,33 @@ fn c16(ctx: &Ctx, rep: &mut Report) {
         }
     }
     rep.count("exhaustive_pairs", i / ctx.shards as u64);
-    let names6 = ["a", "b", "c", "dd", "é", "x y"];
+    // the same exhaustively (depth 3) over names that share leading bytes
+    let names_mb = ["é", "è", "ab", "a"];
+    let mut paths2: Vec<Vec<&str>> = vec![vec![]];
+    let mut frontier: Vec<Vec<&str>> = vec![vec![]];
+    for _ in 0..3 {
+        let mut next = vec![];
+        for f in &frontier {
+            for n in names_mb {
+                let mut x = f.clone();
+                x.push(n);
+                next.push(x);
+            }
+        }
+        paths2.extend(next.iter().cloned());
+        frontier = next;
+    }
+    for p in &paths2 {
+        for b in &paths2 {
+            if ctx.mine(i) {
+                c16_one(p, b, rep);
+            }
+            i += 1;
+        }
+    }
+    // (é / è / ê differ only in the LAST byte of their encoding, а / б likewise: a comparison done on bytes or on a
+    // byte prefix that is then used as a string index lands inside a character there; "ab" / "abc" are string prefixes)
+    let names6 = ["a", "b", "c", "dd", "é", "x y", "è", "ê", "а", "б", "ab", "abc", "日本", "日月"];
     let mut rng = ctx.rng("c16");
     let n = if ctx.thorough { 100_000_000 } else { 200_000 } / ctx.shards;
     for _ in 0..n {
@@ -470,7 +496,7 @@ fn c15_single(s: &str, rep: &mut Report) {
     // (the last six are NOT schemes: characters whose upper- or lower-case mapping lands on an ASCII letter of a scheme
     // name - long s, dotless i, the fi ligature, Kelvin sign, I with dot above - only compare equal after a case fold
     // that is wider than ASCII)
-    for pre in ["", "file://", "FILE://", "ftp://", "http://", "HttpS://", "https://", "file:/", "xfile://", "file://file://", "ssh://", "http\u{17f}://", "f\u{131}le://", "\u{fb01}le://", "HTTP\u{17f}://", "F\u{130}LE://", "\u{212a}ftp://"] {
+    for pre in ["", "file://", "FILE://", "ftp://", "http://", "HttpS://", "https://", "file:/", "xfile://", "file://file://", "ssh://", "http\u{17f}://", "f\u{131}le://", "\u{fb01}le://", "HTTP\u{17f}://", "F\u{130}LE://", "\u{212a}ftp://", "file:ftp://", "http:http://", "File:HTTPS://", "ftp:http:https://", "http:://", "file:file://x/ftp://"] {
         rep.eval();
         let t = format!("{}{}", pre, s);
         let exp = ref_trim_protocol(&t);
